@@ -206,9 +206,19 @@ def run_dump(spec, acc):
                 else:
                     entries.append(d.id if style != "ids-other-case" else rng.choice([d.id.upper(), d.id.lower()]))
                     ids.add(d.id.lower())
+            if style != "empty" and c % 4 == 1:
+                entries.append(126998)          # the PGN with the non-ASCII strings (added to the history below)
+                nums.add(126998)
             path = os.path.join(base, f"sub{c % 3}", f"dump{c}.jsonl") if c % 2 else os.path.join(base, f"dump{c}.jsonl")
             claims = {s: [hist.claim_name(rng.randrange(1 << 20), 1851)] for s in (1, 2)}
             events = hist.build_history(pool, rng, [1, 2], 60 if quick else 200, claims)
+            # text that is not ASCII travels too (PGN 126998, three variable-length strings): the dump is the JSON text
+            # of the message, whatever the characters
+            for k_ in range(2):
+                texts_ = [gen.rand_text(rng, rng.randint(1, 8), unicode_=True) for _ in range(3)]
+                pb_ = b"".join(gen.lau_bytes(t_, ascii_=(j_ == 1)) for j_, t_ in enumerate(texts_))
+                fr_ = wire.fast_frames(pb_, k_ + 1, 0xFF)
+                events += [hist.Ev(6, 126998, 3, 255, f_, "fast", 10_000 + k_, last=(i_ == len(fr_) - 1), definition="configurationInformation") for i_, f_ in enumerate(fr_)]
             # other settings of the same decoder: the dump line is the JSON of the message *as returned*
             extra = {}
             if c % 3 == 1:
